@@ -351,6 +351,30 @@ func (E *Engine) VerifyFunc(p *packages.Package, pc *PkgContracts, c *FuncContra
 		res.Errs = append(res.Errs, o.Gen)
 		return res
 	}
+	// ownership obligations (decided by the type-directed rule in fresh.go)
+	if litOrd == 0 {
+		var ks []int
+		for k := range c.Fresh {
+			ks = append(ks, k)
+		}
+		sort.Ints(ks)
+		for _, k := range ks {
+			ok, why, used := E.freshResult(p, decl, k)
+			o := &Obligation{Name: fmt.Sprintf("%s/fresh.r%d", f.key, k), Kind: "fresh", Fn: f.key, Pkg: p.PkgPath, Props: c.Props,
+				Text: fmt.Sprintf("fresh r%d: the result shares no mutable memory with receiver, parameters or package state", k), Src: fmt.Sprintf("%s:%d", shortPath(c.File), c.Line)}
+			if ok {
+				o.Decided = "unsat"
+				o.Output = "ownership rule: every returned expression is an allocation, pointer-free, part of a fresh value, the result of a callee under a fresh contract, or filled by a decoder"
+			} else {
+				o.Decided = "sat"
+				o.Output = "ownership rule: " + why
+			}
+			for _, u := range used {
+				f.note("assumed by the ownership rule: " + u)
+			}
+			res.Obls = append(res.Obls, o)
+		}
+	}
 	// tracked calls
 	allText := []string{}
 	for _, cl := range c.Ensures {
